@@ -502,7 +502,7 @@ def _source_formulas(eng, R):
                 check(eng, R, "Hsrc", S, fn, "store", u, target=stem + "_uncor_part", when=conds + when, known=KS2, what="uncorrelated part: " + what)
                 check(eng, R, "Hsrc", S, fn, "store", c, target=stem + "_cor_part", when=conds + when, known=KS2, what="correlated part: " + what)
     KM = ["self.error", "self.error_rel", "self.cov_mat", "self.cov_mat_rel", "self.reference", "self._cov_mat", "self._cov_mat_rel", "()diag", "()sqrt"]
-    KM = KM + ["()CovMat", "()outer"]
+    KM = KM + ["()CovMat", "()outer", "()abs"]
     check(eng, R, "Hsrc", M, "cov_mat", "assign", ["self._calculate_cov_mat_from_cov_rel(self.cov_mat_rel, self.reference)", "CovMat(self.cov_mat_rel * outer(self.reference, self.reference))"],
           target="self._cov_mat", when="=(self.relative)", known=KM,
           what="absolute covariance of a relative matrix source = relative covariance converted with the current reference")
